@@ -19,6 +19,7 @@
       BLOCKSAVE t                        -> [TI 1; TI 1]  (save fails at open; dump unchanged)
       FAILSWEEP t wall                   -> [TI calls; TI all failed; TI dump unchanged; TI later save ok]
       BGSWEEP t wall                     -> [TI calls; accepted; flag cleared; dump unchanged; later bgsave ok; newer data; mixed ok]
+      STALETMP t                         -> [TI 1; TI 1]  (a save over a leftover temporary file succeeds; dump = dataset, no temporary file)
       SAVERACE t                         -> [TI 1; TI 1; TI 1]  (foreground saves ok; background saves end; dump = dataset)
       TEARSTRESS t saves torn runs       -> [TI 1]  (C10 (2): racing saves; the observation is judged, not compared)
       PROBE t wall chk                   -> [TI status+4*big; TI hash]  (load the file, flags-only hash)
@@ -318,6 +319,11 @@ Definition rdb_op (s : mst) (op : list tok) : list tok * mst :=
         | [TI wall] => ([TI (calls_save ver_default (wall / 1000) t ds); TI 1; TI 1; TI 1; TI 1; TI 1; TI 1], s)
         | _ => ([TB (bs "BADOP")], s)
         end
+      else if beq name (bs "STALETMP") then
+        (* the temporary file holds the leftover of a save that never finished: write_snapshot opens it
+           truncating (Generated.rdb_tmp_opened_afresh), so the save is the save of
+           Props/C10.v c10_later_save_succeeds - whatever dk_tmp held; the harness puts the dump back *)
+        ([TI 1; TI 1], s)
       else if beq name (bs "SAVERACE") then
         (* a foreground save issued while a background save is writing: saves are serialised
            (Generated.rdb_save_serialised, Props/C10.v), so each is an undisturbed save; the
